@@ -20,6 +20,10 @@ CLAIMED = {
    technique="deterministic fault injection on encodings with a canonical-form and independent group-membership oracle; all single-bit flips and format-aware faults enumerated per sampled valid encoding",
    text="For each decoder of group elements / keys named in the property: every single-bit flip and every format-aware fault (coordinate+p, x=p-1/p/p+1, flag bits, infinity with payload, unused bits, ML-KEM coefficients >= q) of sampled valid encodings (incl. identities reached by arithmetic) is decoded; acceptance requires byte-identical re-serialisation in the same format and an independent membership test ((r-1)P+P=O for BLS12-381, crypto/elliptic for NIST curves, on-curve for Goldilocks/FourQ, order check after curve4q cofactor clearing); library-made encodings must be accepted.",
    note="Decoders whose tests pin prefix parsing (bls12381 SetBytes) are judged on the parsed prefix; BLS12-381 membership uses the library's own group law (C13 assumed)."),
+ "C15": dict(engine="histsim", level="exploration", ref="DESIGN.md §3 C15",
+   technique="deterministic simulation of object histories: seeded Write/Read/Sum/Clone/Reset sequences under a chunking adversary (short writes/reads at rate and 8192-byte boundaries, lanes 1/2/4) checked op by op against one-shot reference models; Ascon objects reused with dst prefixes, in-place calls and tamper faults",
+   text="Long-lived SHA-3/SHAKE/TurboSHAKE states, xof.XOF objects, K12 states (lanes 1, 2, 4; customisation strings), reused expander objects, 2-/4-way Keccak states and reused Ascon ciphers are driven through seeded histories; every output byte range is compared with a plain one-shot reference model of the specification (pinned to published vectors at start-up), clones must agree and be independent, Reset must forget, lanes must not matter; Ascon Seal = model, Open inverts (also in place / after a dst prefix) and any single-bit change of key, nonce, AD, ciphertext or tag, or truncation, returns an error and no plaintext.",
+   note="Models trusted after their fixture checks (x/crypto/sha3, RFC 9861 / K12 I-D, RFC 9380, LWC Ascon KATs); internal/sha3 and the K12 lane knob are reached through build-time overlay shims, nothing is committed to /repo."),
 }
 
 NA = {
@@ -62,6 +66,7 @@ m = {
  },
  "engines": [
    {"name": "codecsim", "path": "sim/codec", "serves_properties": ["C09", "C10"], "kind_free_text": "encode -> fault-injecting medium -> decode, enumerated fault families per entry point"},
+   {"name": "histsim", "path": "sim/props/c15 (+c11)", "serves_properties": ["C11", "C15"], "kind_free_text": "single-owner object histories against value / one-shot reference models"},
    {"name": "netsim", "path": "sim/core + sim/props/*", "serves_properties": sorted(p for p in CLAIMED if CLAIMED[p]["engine"].startswith("netsim")), "kind_free_text": "seeded protocol simulation: nodes are real circl calls, the simulator owns transport, disk, entropy and crashes"},
  ],
  "checks": checks,
